@@ -533,7 +533,9 @@ def doAuthenticate (cfg : Cfg) (cmd : Str) (args : List Str) (s : St) : R :=
     | none => raise "Error" { s with dec := some (decoderFeed (curDecoder s) chunk) }   -- binascii.Error, decoder kept
     | some n => authRespond cfg n { s with dec := none }
 
+/-- Irc.do903: honoured only as the end of a SASL exchange -/
 def do903 (cfg : Cfg) (s : St) : R :=
+  (expectState Gen.Conn.expectDo903 s).bind fun s =>
   (onSaslAuthFinished { s with saslAuth := true }).bind fun s =>
   if s.fsm = .INIT_CAP_NEGOTIATION then endCap cfg s else ok s
 
